@@ -112,20 +112,20 @@ func runsFor(prop, tier string) []run {
 			{"2blk-mixed-punch", c2, pick(5, 7), minutes(pickf(0.8, 8))},
 		}
 	case "C10":
-		c := ea.Cfg{Blocks: 1, Alphabet: []string{"W", "Mode:WO", "Mode:RW", "SetRev:7", "SetRev:3", "Close", "Open", "Reload", "SnapA", "ReopenP"},
-			WShapes: [][2]int{{0, 8}, {3, 2}}, RShapes: [][2]int{{0, 8}}, Oracles: []string{"rev", "reopen", "read"}, MaxSnaps: 2}
+		c := ea.Cfg{Blocks: 1, Alphabet: []string{"W", "Mode:WO", "Mode:RW", "SetRev:7", "SetRev:3", "SetRev:12", "Close", "Open", "Reload", "SnapA", "ReopenP"},
+			WShapes: [][2]int{{0, 8}, {3, 2}}, RShapes: [][2]int{{0, 8}}, Oracles: []string{"rev", "crashopen", "reopen", "read"}, MaxSnaps: 2}
 		return []run{{"1blk-counter", c, pick(6, 8), minutes(pickf(2, 12))}}
 	case "C16":
 		ws := [][2]int{{0, 8}, {8, 8}, {4, 8}, {16, 8}, {12, 8}, {24, 8}, {20, 12}}
 		c := ea.Cfg{Blocks: 2, Punch: true, Alphabet: []string{"W", "SnapU", "Grow", "Shrink", "ResizeGarbage", "ResizeEmpty", "ReopenP", "Revert", "Rm", "SnapA"},
-			WShapes: ws, RShapes: [][2]int{{0, 16}, {12, 8}}, Oracles: []string{"read", "snapdirect", "snaprevert", "reopen", "chain"}, MaxSnaps: 3, MaxGrow: 2, SysRmOnly: true}
+			WShapes: ws, RShapes: [][2]int{{0, 16}, {12, 8}}, Oracles: []string{"read", "snapdirect", "snaprevert", "crashopen", "reopen", "chain"}, MaxSnaps: 3, MaxGrow: 2, SysRmOnly: true}
 		c2 := c
 		c2.Punch = false
 		return []run{{"2blk-grow-punch", c, pick(5, 7), minutes(pickf(1.5, 8))}, {"2blk-grow-nopunch", c2, pick(5, 7), minutes(pickf(1.5, 8))}}
 	case "C12":
 		alpha := []string{"W", "SnapU", "SnapA", "SnapDup", "SnapDupOld", "Mark", "Rm", "RmHead", "RmLatest", "RmBase", "RmUnknown", "RmRawHead", "RmRawLatest", "RmRawUnknown",
 			"RmWrongMode", "Revert", "RevertUnknown", "Grow", "Shrink", "ResizeGarbage", "Checkpoint", "CheckpointUnknown", "ReopenP", "Reload"}
-		c := ea.Cfg{Blocks: 2, Alphabet: alpha, WShapes: [][2]int{{0, 8}, {4, 8}}, RShapes: [][2]int{{0, 16}}, Oracles: []string{"chain", "read", "snapdirect", "reopen"}, MaxSnaps: 4, MaxGrow: 1, MaxWrites: 3, SysRmOnly: true}
+		c := ea.Cfg{Blocks: 2, Alphabet: alpha, WShapes: [][2]int{{0, 8}, {4, 8}}, RShapes: [][2]int{{0, 16}}, Oracles: []string{"chain", "read", "snapdirect", "crashopen", "reopen"}, MaxSnaps: 4, MaxGrow: 1, MaxWrites: 3, SysRmOnly: true}
 		c2 := c
 		c2.InitOps = []string{"W:0:16", "SnapU", "W:0:8", "SnapA", "W:8:8", "SnapA"}
 		c2.MaxSnaps = 5
